@@ -11,8 +11,11 @@ import Uft.Model.Session
    find | <table> | <addr>...                 -> wf=<0|1> <sym|->...
    save <off> <pathhex> <bidhex> | <table>    -> texthex
    scen | op | op ...                         -> one result per query op
-     MODT <id> <texthex>            module <id> has the table `load 0 text`
-     MODS <id> <pathhex> <bidhex> <table...>   module <id> = load 0 (save 0 path bid table)
+     WS <0|1>                       symbol directory = data directory (0) or separate (--with-syms, 1)
+     MODT <id> <texthex>            file mod<id>.so.sym with this text; module <id> = /nonexistent-c10/mod<id>.so
+     MODS <id> <pathhex> <bidhex> <table...>   save_module_symbol_file into the symbol directory;
+                                    module <id> = (path, build-id); its table is whatever
+                                    load_module_symbol selects from the directory
      S <sid> <pid> <time> <stack|-> <start:end:modid>...   create_session (tid = pid)
      T <pid> <tid> <time> / F <ppid> <tid> <time>          create_task(…, false/true)
      D <sid> <time> <base> <modid>                         session_add_dlopen
@@ -61,18 +64,37 @@ def splitBar (ws : List String) : List (List String) :=
 def b01 (b : Bool) : String := if b then "1" else "0"
 
 structure Scen where
-  mods : List (Nat × List Sym) := []
+  dir : SymDir := []
+  withSyms : Bool := false
+  mods : List (Nat × (List Char × List Char)) := []
   link : Link := {}
   out : List String := []
   bad : Bool := false
 
-def modTable (sc : Scen) (id : Nat) : List Sym := (sc.mods.lookup id).getD []
+/-- table of module `id` as a map entry (build-id from the map file) -/
+def modTable (sc : Scen) (id : Nat) : List Sym :=
+  match sc.mods.lookup id with
+  | some (p, b) => moduleTable sc.dir sc.withSyms p b
+  | none => moduleTable sc.dir sc.withSyms "/nonexistent-c10/none".toList []
 
-def parseMapTok (tok : String) : Option (MapLine × Nat) :=
+/-- table of module `id` when dlopen'ed: `read_build_id` of a non-existent file gives "" -/
+def modTableDl (sc : Scen) (id : Nat) : List Sym :=
+  match sc.mods.lookup id with
+  | some (p, _) => moduleTable sc.dir sc.withSyms p []
+  | none => moduleTable sc.dir sc.withSyms "/nonexistent-c10/none".toList []
+
+def modPath (sc : Scen) (id : Nat) : List Char :=
+  match sc.mods.lookup id with
+  | some (p, _) => p
+  | none => "/nonexistent-c10/none".toList
+
+def modtPath (id : Nat) : List Char := "/nonexistent-c10/mod".toList ++ (showHex id).toList ++ ".so".toList
+
+def parseMapTok (tok : String) : Option (Nat × Nat × Nat) :=
   match tok.splitOn ":" with
   | [a, b, m] =>
     match parseHexNat a, parseHexNat b, parseHexNat m with
-    | some a, some b, some m => some ({ start := a, stop := b, path := (toString m).toList }, m)
+    | some a, some b, some m => some (a, b, m)
     | _, _, _ => none
   | _ => none
 
@@ -82,22 +104,32 @@ def updSess (lk : Link) (sid : Nat) (f : Sess → Sess) : Link :=
 def scenOp (sc : Scen) (op : List String) : Scen :=
   let fail : Scen := { sc with bad := true }
   match op with
+  | ["WS", b] => { sc with withSyms := b == "1" }
   | ["MODT", id, text] =>
     match parseHexNat id, parseChars text with
-    | some id, some text => { sc with mods := (id, load 0 text) :: sc.mods }
+    | some id, some text =>
+      let name := basename (modtPath id) ++ ".sym".toList
+      { sc with dir := (name, text) :: sc.dir.filter (fun e => e.1 != name),
+                mods := (id, (modtPath id, [])) :: sc.mods }
     | _, _ => fail
   | "MODS" :: id :: path :: bid :: tab =>
     match parseHexNat id, parseChars path, parseChars bid, parseTable tab with
-    | some id, some path, some bid, some t => { sc with mods := (id, load 0 (save 0 path bid t)) :: sc.mods }
+    | some id, some path, some bid, some t =>
+      { sc with dir := saveInto sc.dir path bid t, mods := (id, (path, bid)) :: sc.mods }
     | _, _, _, _ => fail
   | "S" :: sid :: pid :: time :: stack :: maps =>
     match parseHexNat sid, parseHexNat pid, parseHexNat time, maps.mapM parseMapTok with
     | some sid, some pid, some time, some mls =>
       let kb := if stack = "-" then 0 else guessKernelBase ((parseHexNat stack).getD 0)
-      let merged := mergeMapLines [] (mls.map (·.1))
+      let lines : List MapLine := mls.map (fun (a, b, m) => { start := a, stop := b, path := modPath sc m })
+      let merged := mergeMapLines [] lines
+      -- the map keeps the build-id of its first line
+      let idOf (ml : MapLine) : Nat :=
+        match mls.find? (fun (a, _, m) => a == ml.start && modPath sc m == ml.path) with
+        | some (_, _, m) => m
+        | none => 0
       let ms : List Map := merged.map (fun ml =>
-        { start := ml.start, stop := ml.stop,
-          syms := modTable sc ((String.ofList ml.path).toNat!) })
+        { start := ml.start, stop := ml.stop, syms := modTable sc (idOf ml) })
       let ns : Sess := { sid := sid, pid := pid, tid := pid, start := time,
                          info := { kernelBase := kb, maps := ms } }
       { sc with link := createSession sc.link ns }
@@ -126,7 +158,7 @@ def scenOp (sc : Scen) (op : List String) : Scen :=
   | ["D", sid, time, base, modid] =>
     match parseHexNat sid, parseHexNat time, parseHexNat base, parseHexNat modid with
     | some sid, some time, some base, some m =>
-      let lib : DlLib := { time := time, base := base, syms := modTable sc m }
+      let lib : DlLib := { time := time, base := base, syms := modTableDl sc m }
       { sc with link := updSess sc.link sid (fun s => { s with dl := addDlopen s.dl lib }) }
     | _, _, _, _ => fail
   | ["R", tid, time] =>
